@@ -537,6 +537,25 @@ def pmap(module, func, cases, deadline=20.0, workers=None):
     return results
 
 
+def pmap_singles(module, func, cases, deadline, max_hangs=4, R=None):
+    """re-run the cases of a chunk that did not answer, one per worker call, to find the culprit(s). As soon as `max_hangs` calls have
+    been confirmed not to return, the remaining cases are NOT run any more (answer {"skipped": True}): a non-terminating implementation
+    is reported after a few deadlines instead of after one deadline per generated case"""
+    out = []
+    hangs = getattr(R, "_hangs", 0) if R is not None else 0     # with R: the budget is shared by all chunks of the run
+    step = 12
+    for k in range(0, len(cases), step):
+        if hangs >= max_hangs:
+            out += [{"skipped": True}] * (len(cases) - k)
+            break
+        rs = pmap(module, func, cases[k:k + step], deadline=deadline)
+        hangs += sum(1 for r in rs if isinstance(r, dict) and "hang" in r)
+        out += rs
+    if R is not None:
+        R._hangs = hangs
+    return out
+
+
 def relayout(a):
     """same values, another memory layout (C-contiguous / Fortran-ordered / strided view of a larger buffer), chosen
     deterministically from the content: results must not depend on how the caller's array is laid out in memory"""
@@ -587,6 +606,9 @@ def safe_judge(fn):
 
     @functools.wraps(fn)
     def w(R, *a, **k):
+        if any(isinstance(x, dict) and x.get("skipped") is True and len(x) == 1 for x in a):
+            R.count("not_run_after_repeated_non_termination")      # see pmap_singles
+            return None
         try:
             return fn(R, *a, **k)
         except Infra:
